@@ -59,8 +59,14 @@ static int sample(int k, int x, int y, int plane) {
               int band = Y / 32, yy = Y % 32, xx = ((X - 64) - 10 * k - 37 * band) % 96; if (xx < 0) xx += 96;
               if (yy >= 10 && yy < 22 && xx < 12) v = ((xx / 4 + yy / 4) & 1) ? 235 : 20;
               break; }
-    case 7: { unsigned s = (unsigned)((cseed + 3) * 2654435761u) ^ (unsigned)(plane * 131) ^ (unsigned)(y * 7919 + x * 17); s ^= s << 13; s ^= s >> 17; s ^= s << 5;
-              int sc = plane ? 2 : 1; int X = x * sc, Y = y * sc; v = 90 + ((X / 24 + Y / 24) & 1) * 50 + (int)((s >> 9) % 41) - 20; if (plane) v = 128 + (int)((s >> 9) % 9) - 4; break; }
+    case 7: { /* the same noisy picture every frame: smooth gradient + fixed approximately gaussian noise */
+              unsigned s = (unsigned)((cseed + 3) * 2654435761u) ^ (unsigned)(plane * 131071) ^ (unsigned)(y * 7919 + x * 104729); int a = 0;
+              for (int t = 0; t < 12; t++) { s ^= s << 13; s ^= s >> 17; s ^= s << 5; a += (int)(s & 1023); }
+              int w_ = plane ? W / 2 : W, h_ = plane ? Hh / 2 : Hh;
+              if (plane == 0) v = 60 + (x * 100) / w_ + (y * 40) / h_ + ((a - 6138) * 5) / 1024;
+              else if (plane == 1) v = 110 + (x * 30) / w_ + ((a - 6138) * 3) / 1024;
+              else v = 140 - (y * 30) / h_ + ((a - 6138) * 3) / 1024;
+              if (v < 0) v = 0; if (v > 255) v = 255; break; }
     case 8: { int sc = plane ? 2 : 1; int X = x * sc - W / 2, Y = y * sc - Hh / 2;
               int zx = (X * (256 + 5 * k) - Y * (3 * k)) / 256 + W / 2 + 1000, zy = (Y * (256 + 5 * k) + X * (3 * k)) / 256 + Hh / 2 + 1000;
               unsigned s = (unsigned)((cseed + 11) * 2654435761u) ^ (unsigned)((zy / 14) * 7919 + (zx / 14)); s ^= s << 13; s ^= s >> 17; s ^= s << 5;
@@ -308,6 +314,7 @@ int main(int argc, char **argv) {
                             }
                             if (dh->cur_pic_buf[0]) for (int r = 1; r < 8; r++) gm += dh->cur_pic_buf[0]->global_motion[r].gm_type > TRANSLATION;
                         }
+                        fprintf(H, " gupd=%d gseed=%u", fh->film_grain_params.apply_grain ? (int)fh->film_grain_params.update_parameters : -1, (unsigned)fh->film_grain_params.random_seed);
                         fprintf(H, " nblk=%u pal=%u ibc=%u obmc=%u warpblk=%u fintra=%u cfl=%u interintra=%u gm=%u compound=%u tcols=%u trows=%u", nb, pal, ibc, obmc, warp, fint, cfl, ii, gm, cmp,
                                 (unsigned)fh->tiles_info.tile_cols, (unsigned)fh->tiles_info.tile_rows);
                     }
